@@ -92,6 +92,8 @@ class C22(core.Check):
             ("rx", False, [[(z, 1), (A.ref_gram("bAAB", False, m, 5, b"cd"), 1)]], "gram number >= count"),
             ("rx", False, [[(A.ref_gram("bAAA", False, m, 1, b"\xff\xfe"), 1)], [(z, 1)]], "memo not utf-8, then service again"),
             ("rx", False, [[(A.ref_gram("bAAA", False, m, 0, b"zz"), 1)]], "count 0"),
+            ("rx", False, [[(A.ref_gram("bAAA", False, A.mid_of(30), 1, b"good memo"), 1), (A.ref_gram("bAAA", False, A.mid_of(31), 1, b"\xff\xfe not text"), 2)]], "non-text memo fuses right after a good one"),
+            ("rx", False, [[(A.ref_gram("bAAE", True, A.mid_of(32), 2, b"good "), 3), (A.ref_gram("bAAE", True, A.mid_of(33), 1, b"\xc3("), 3), (A.ref_gram("bAAF", True, A.mid_of(32), 1, b"memo"), 3)]], "… same source, b2"),
             ("rx", True, [[(bytes(bad), 1)], [(bytes(bads), 1)], [(bytes(badf), 1)]], "junk in vid / sig"),
             ("rx", True, [[(g, 1) for g in sg]], "genuine signed"),
             ("rx", True, [[(g, 2) for g in sgb]], "genuine signed b2, D vid"),
@@ -356,6 +358,7 @@ class C22(core.Check):
         bad = []
         states = A.keep_states(case[2])          # what the keep holds after 0, 1, … key management steps
         kidx = 0
+        srcs = []                                # ((datagram, source id), parsed | None) of everything fed so far
         seen = []                                # (parsed datagram, index of the keep state in force when it arrived)
         extra = [o for o in obs if o and isinstance(o[0], str) and o[0] not in ("escape",)]
         if extra:
@@ -380,6 +383,7 @@ class C22(core.Check):
                 return bad
             for g, _s in op[1]:
                 p_ = A.ref_parse(g)
+                srcs.append(((g, _s), p_))
                 if p_:
                     p_["k0"] = kidx
                     seen.append(p_)
@@ -404,6 +408,7 @@ class C22(core.Check):
                     continue
                 vids = [vid.decode()] if vid is not None else None
                 ok = False
+                okmids = set()
                 for z in parsed:
                     if not z["zeroth"]:
                         continue
@@ -424,7 +429,7 @@ class C22(core.Check):
                     if z["num"] == 0:
                         if bytes(text) == b"":
                             ok = True
-                            break
+                            okmids.add(z["mid"])
                         continue
                     parts = [list({q["body"] for q in zs0})]
                     for gn in range(1, z["num"]):
@@ -440,9 +445,18 @@ class C22(core.Check):
                         parts.append(list(opts))
                     if parts is not None and A.can_assemble(bytes(text), parts):
                         ok = True
-                        break
+                        okmids.add(z["mid"])
                 if not ok:
                     bad.append("delivered-memo-not-covered-by-valid-signatures" if authic else "delivered-memo-not-assembled-from-received-grams")
+                elif _src not in {s_ for (g_, s_), p_ in srcs if p_ and p_["mid"] in okmids}:
+                    bad.append("memo-delivered-under-a-source-none-of-its-grams-came-from")
+            # exactly once per completion: one call cannot deliver the same record more often than zeroth grams have arrived so far
+            for rec in set(delivered):
+                n_ = list(delivered).count(rec)
+                if n_ > 1:
+                    mids_ = [p_["mid"] for (g_, s_), p_ in srcs if p_ and p_["zeroth"]]      # every zeroth datagram received so far (a memo that arrives again completes again: F33)
+                    if n_ > len(mids_):
+                        bad.append("memo-delivered-more-often-than-completed")
         if len(obs) != nsvc:
             bad.append("observation-shape")
         return bad
